@@ -1,6 +1,7 @@
 """C04 — transparency of @pedantic for conforming keyword calls: every generated program exists twice, decorated and as an
 undecorated twin executed for real on the same argument objects; body text is varied with needles."""
 import _call_common as C
+import _gen_common as G
 
 RULE = ('generated programs as in C05, each with an undecorated twin (same source without the pedantic decorators) executed on the same objects; '
         'conforming keyword calls (and corrupted ones for the correspondence); compared: outcome class, exactly-one body execution, per-name '
@@ -15,17 +16,24 @@ TRUSTED = ['CPython inspect / functools.wraps semantics']
 def cases(rng, tier):
     n = 1500 if tier == 'quick' else 12000
     return C.build_cases(rng, n, calls_per=3, style='kw', tag='c04a') + C.build_cases(rng, n // 4, calls_per=2, style=None, tag='c04b') \
-        + C.scenario_cases(rng, n // 8, style='kw', tag='c04sc')
+        + C.scenario_cases(rng, n // 8, style='kw', tag='c04sc') \
+        + G.gen_cases(rng, tier)           # generator functions: same yielded values / StopIteration value / journal as the undecorated twin
 
 
 def search(rng, tier, near):
-    return C.build_cases(rng, 900, calls_per=3, style='kw', tag='c04s')
+    return C.build_cases(rng, 900, calls_per=3, style='kw', tag='c04s') + G.search_cases(rng, tier, near)
 
 
-run_impl = C.run_impl_calls
+def run_impl(cases):
+    return G.run_impl_mixed(cases, C.run_impl_calls)
+
+
+extra_coverage = G.coverage
 
 
 def judge(case, impl, model):
+    if case['m'] == G.MODEL:
+        return G.judge_transparent(case, impl, model)
     corr, why = C.correspondence(case, impl, model)
     s = model['spec']
     out = C.norm_out(impl['out'])
